@@ -84,6 +84,49 @@ fn block_on_fresh_wakers<F: Future>(f: F) -> F::Output {
     }
 }
 
+/// busy polling with a waker that does nothing: completion is observed by the poll alone,
+/// without any synchronisation through a wake-up
+fn busy_poll<F: Future>(f: F) -> F::Output {
+    struct Noop;
+    impl Wake for Noop {
+        fn wake(self: Arc<Self>) {}
+    }
+    let w = Waker::from(Arc::new(Noop));
+    let mut cx = Context::from_waker(&w);
+    let mut f = Box::pin(f);
+    loop {
+        if let Poll::Ready(x) = f.as_mut().poll(&mut cx) {
+            return x;
+        }
+        thread::yield_now();
+    }
+}
+fn async_recv_busy_poll() {
+    let (s, r) = kanal::bounded_async::<Msg>(0);
+    let s = s.to_sync();
+    let t = thread::spawn(move || {
+        s.send(Msg::new(1)).unwrap();
+        s.send(Msg::new(2)).unwrap();
+    });
+    let a = busy_poll(r.recv()).unwrap();
+    a.check();
+    let b = busy_poll(r.recv()).unwrap();
+    b.check();
+    assert_eq!((a.id, b.id), (1, 2));
+    t.join().unwrap();
+}
+fn async_send_busy_poll() {
+    let (s, r) = kanal::bounded_async::<Small>(0);
+    let r = r.to_sync();
+    let t = thread::spawn(move || {
+        assert_eq!(*r.recv().unwrap().0, 1);
+        assert_eq!(*r.recv().unwrap().0, 2);
+    });
+    busy_poll(s.send(Small(Box::new(1)))).unwrap();
+    busy_poll(s.send(Small(Box::new(2)))).unwrap();
+    t.join().unwrap();
+}
+
 fn sync_rendezvous() {
     let (s, r) = kanal::bounded::<Msg>(0);
     let t = thread::spawn(move || {
@@ -331,6 +374,8 @@ pub const SCENARIOS: &[(&str, fn())] = &[
     ("stream_spurious", stream_spurious),
     ("drain_blocked_senders", drain_blocked_senders),
     ("zst_and_padding", zst_and_padding),
+    ("async_recv_busy_poll", async_recv_busy_poll),
+    ("async_send_busy_poll", async_send_busy_poll),
 ];
 
 fn main() {
